@@ -100,7 +100,8 @@ def case_set_history(cid, rng, nv, length, slots=16):
             elif rng.random() < 0.7:
                 ops.append(f"SINGLETON h{fresh()} {rng.randrange(nv)}")
             else:
-                ops.append(f"{rng.choice(['EMPTY', 'BASE', 'BASE'])} h{fresh()}")
+                # CONST 1 = t_edge = the top of the tautology chain (the family of all subsets)
+                ops.append(rng.choice([f"EMPTY h{fresh()}", f"BASE h{fresh()}", f"BASE h{fresh()}", f"CONST h{fresh()} 1"]))
         elif r < 0.36:
             a, b = pick(), pick()
             ops.append(f"{rng.choice(['UNION', 'INTSEC', 'DIFF'])} h{fresh()} h{a} h{b}")
